@@ -54,3 +54,37 @@ package cmpp
 //@ func TimeStamp2Str
 //@   props C15
 //@   ensures [C15 tenDigits] result == dec10(int(t)) && len(result) == 10 && nonul(result)
+
+// ---------------------------------------------------------------- UTF-8 -> UCS-2 helpers (C05, C03)
+// Both helpers emit, for every UTF-16 code unit of the input's runes, its high octet followed by its low octet; having
+// the same postcondition they agree with each other.
+
+//@ func Utf8ToUcs2Back
+//@   props C05,C03
+//@   ensures [C05 length] len(result) == 2 * utf16len(in)
+//@   ensures [C05 units] forall i int :: 0 <= i && i < utf16len(in) ==> at(result, 2 * i) == select(utf16units(in), i) / 256 && at(result, 2 * i + 1) == select(utf16units(in), i) % 256
+//@   loop 1
+//@     invariant -1 <= rangeindex && rangeindex < len(buf) && len(octets) == 2 * (rangeindex + 1)
+//@     invariant forall i int :: 0 <= i && i <= rangeindex ==> at(content(octets), 2 * i) == select(utf16units(in), i) / 256 && at(content(octets), 2 * i + 1) == select(utf16units(in), i) % 256
+//@     decreases len(buf) - rangeindex
+
+//@ func Utf8ToUcs2Pooled
+//@   props C05,C03
+//@   ensures [C05 length] len(s) == 2 * utf16len(in)
+//@   ensures [C05 units] forall i int :: 0 <= i && i < utf16len(in) ==> at(s, 2 * i) == select(utf16units(in), i) / 256 && at(s, 2 * i + 1) == select(utf16units(in), i) % 256
+//@   loop 1
+//@     invariant -1 <= rangeindex && rangeindex < len(buf) && octets != nil && len(octets.B) == 2 * (rangeindex + 1)
+//@     invariant forall i int :: 0 <= i && i <= rangeindex ==> at(content(octets.B), 2 * i) == select(utf16units(in), i) / 256 && at(content(octets.B), 2 * i + 1) == select(utf16units(in), i) % 256
+//@     decreases len(buf) - rangeindex
+
+// ---------------------------------------------------------------- header peeking (C02, C03)
+
+//@ func PeekHeader
+//@   props C02,C03
+//@   ensures [C03 short] len(buf) < 12 ==> err != nil
+//@   ensures [C02 fields] len(buf) >= 12 ==> err == nil && int(h.TotalLength) == dbe32(ext(content(buf), 0, 4)) && int(h.CommandID) == dbe32(ext(content(buf), 4, 8)) && int(h.SequenceID) == dbe32(ext(content(buf), 8, 12))
+
+//@ func NewHeaderFromBytes
+//@   props C02,C03
+//@   ensures [C03 short] len(d) < 12 ==> err != nil
+//@   ensures [C02 fields] len(d) >= 12 ==> err == nil && int(h.TotalLength) == dbe32(take(content(d), 4)) && int(h.CommandID) == dbe32(take(drop(content(d), 4), 4)) && int(h.SequenceID) == dbe32(take(drop(content(d), 8), 4))
